@@ -31,6 +31,7 @@ static uint64_t sig_shift;       /* op `shift d`: the stream is d arbitrary fram
 static uint64_t win_a, win_n, win_seg; static uint64_t * win_hash; static size_t win_cnt;  /* op `window a n seg` */
 static size_t stale_ilen;
 static int null_out;            /* op `nullout 1`: a call that asks for 0 output frames passes out == NULL */
+static int fast_io;             /* op `fast 1`: very long streams - the input is silence (calloc), the output is counted, not hashed */
 static int eoi_style;           /* op `eoistyle k`: how end-of-input is signalled and how the drain calls look (see after_end) */        /* op `stale n`: the ilen passed along with in == NULL (soxr.h puts no requirement on it) */
 
 /* ---------- deterministic input signal: a function of (channel, absolute frame index) only */
@@ -72,8 +73,8 @@ static void * make_input(size_t n, void * * to_free)
     *to_free = 0;
     return split_ptrs;
   } else {
-    void * b = malloc(n * sz * ch + !(n * ch));
-    for (i = 0; i < n; ++i) for (c = 0; c < ch; ++c) put_sample(b, itype, i * ch + c, sigs(c, pos + i));
+    void * b = fast_io? calloc(n * ch + !(n * ch), sz) : malloc(n * sz * ch + !(n * ch));
+    if (!fast_io) for (i = 0; i < n; ++i) for (c = 0; c < ch; ++c) put_sample(b, itype, i * ch + c, sigs(c, pos + i));
     *to_free = b;
     return b;
   }
@@ -99,6 +100,7 @@ static void * make_output(size_t n)
 static void absorb_output(void * out, size_t n)
 {
   size_t sz = tsize(otype), i, b; unsigned c;
+  if (fast_io) { total_out += n; return; }
   for (c = 0; c < ch && c < 64; ++c) for (i = 0; i < n; ++i) {
     unsigned char const * p = (otype & SOXR_SPLIT)? (unsigned char *)((void * *)out)[c] + i * sz
                                                    : (unsigned char *)out + (i * ch + c) * sz;
@@ -274,7 +276,7 @@ static void do_create(char * * t, int nt)
   last_q = q; last_io = io; last_rt = rt;
   if (S) soxr_delete(S);
   S = soxr_create(irate, orate, ch, &create_err, &io, &q, &rt);
-  pos = total_out = 0; memset(hash, 0, sizeof(hash)); max_ilen_set = 0; limitN = UINT64_MAX; sig_shift = 0; eoi_style = 0; null_out = 0; perturb_at = UINT64_MAX;
+  pos = total_out = 0; memset(hash, 0, sizeof(hash)); max_ilen_set = 0; limitN = UINT64_MAX; sig_shift = 0; eoi_style = 0; null_out = 0; fast_io = 0; perturb_at = UINT64_MAX;
   free(win_hash); win_hash = 0;
   if (!S) { printf("< CREATE err %s\n", create_err); return; }
   e = (char *)soxr_engine(S);
@@ -430,6 +432,7 @@ int main(void)
     else if (!strcmp(t[0], "eoi")) do_eoi();     /* end of input signalled by a call with neither an input nor an output buffer */
     else if (!strcmp(t[0], "eoistyle") && nt >= 2) eoi_style = atoi(t[1]);
     else if (!strcmp(t[0], "nullout") && nt >= 2) null_out = atoi(t[1]);
+    else if (!strcmp(t[0], "fast") && nt >= 2) fast_io = atoi(t[1]);
     else if (!strcmp(t[0], "pull") && nt >= 2)
       run_process(0, 0, 0, 0, (size_t)strtoull(t[1], 0, 10), t + 2, nt - 2, 1);
     else if (!strcmp(t[0], "delay")) {
